@@ -83,4 +83,23 @@ def cleanTop : List Char → Bool
   | c :: _ => c ≠ '│' && c ≠ ' ' && c ≠ '├' && c ≠ '╰'
   | [] => false
 
+/-! ### the cells of a statistics row: `cell │ cell │ ...` -/
+
+/-- column separator -/
+def cellSep : List Char := [' ', '│', ' ']
+
+/-- what `TreePainter` writes after the name of a statistics row: the cells joined by the separator -/
+def joinCells : List (List Char) → List Char
+  | [] => []
+  | [c] => c
+  | c :: cs => c ++ (cellSep ++ joinCells cs)
+
+/-- split a row at every separator (left to right) -/
+def splitCellsGo (cur : List Char) : List Char → List (List Char)
+  | ' ' :: '│' :: ' ' :: r => cur.reverse :: splitCellsGo [] r
+  | c :: r => splitCellsGo (c :: cur) r
+  | [] => [cur.reverse]
+
+def splitCells (s : List Char) : List (List Char) := splitCellsGo [] s
+
 end LineCodec
